@@ -16,10 +16,10 @@
                             type arrays are the classification of the rational bounds with threshold INFTY
    Inv s                    every entry of the real LP is a double, sides/bounds vectors have matching lengths, and a
                             rational LP exists outside SYNCMODE_ONLYREAL
-   benign s o               the call avoids the four mechanisms by which the code itself breaks the relation
-                            (see the refutation theorems): _rangeTypeReal used with INFTY < |v| < 1e100, a nonzero
-                            vector entry beyond the current dimension whose double image is 0, changeElement with a
-                            value at the epsilon threshold, the GMP addCol entry points when the sense of the LPs
+   benign s o               the call avoids the mechanisms by which the code itself breaks the relation (see the
+                            refutation theorems): a nonzero vector entry beyond the current dimension whose double
+                            image is 0, changeElement with a value at the epsilon threshold (every call of the real
+                            interface is benign), the GMP addCol entry points when the sense of the LPs
                             differs from the OBJSENSE parameter
    spec_step / spec_run     what a call means for a rational LP alone: every argument stored verbatim, a double
                             argument as its exact value (no mode, no real LP, no rounding, no epsilon, no types) *)
@@ -96,8 +96,15 @@ Proof. exact onlyreal_exact_solve_copy. Qed.
 Print Assumptions C07_onlyreal_sync_exact_copy.
 
 (* ---------------------------------------------------------------------------------------------------------
-   the classification: every call of the rational interface, in SYNCMODE_AUTO and SYNCMODE_MANUAL, keeps the type
-   arrays equal to the classification of the rational bounds; the real interface does not touch them outside AUTO *)
+   the classification used by the exact solver always matches the rational bounds: outside SYNCMODE_ONLYREAL (where
+   the arrays are not maintained and every way out recomputes them) the type arrays are the classification of the
+   rational bounds with threshold INFTY, in every state reachable by valid calls of either interface in any mode *)
+Theorem C07_types_always_match :
+  forall rnd s o, Inv s -> TypesInv s -> valid_op rnd s o = true -> TypesInv (step rnd s o).
+Proof. exact types_always. Qed.
+Print Assumptions C07_types_always_match.
+
+(* its parts: every call of the rational interface (AUTO and MANUAL), the real interface outside AUTO ... *)
 Theorem C07_types_match_after_rational_call :
   forall rnd s qo, mode s <> OnlyReal -> Inv s -> TypesOK s -> valid_op rnd s (OQ qo) = true -> TypesOK (step rnd s (OQ qo)).
 Proof. exact types_step_rational. Qed.
@@ -108,20 +115,29 @@ Theorem C07_types_untouched_by_real_call_outside_auto :
 Proof. exact types_step_real_not_auto. Qed.
 Print Assumptions C07_types_untouched_by_real_call_outside_auto.
 
+(* ... and the two statements that were refuted before changeRow/Col/Range/BoundsReal classified with the INFTY parameter
+   and before setIntParam(SYNCMODE, MANUAL) recomputed the arrays when it comes from ONLYREAL; the former witnesses: *)
+(* setRealParam(INFTY,1e20); changeRangeReal(0,-1e30,1): _rowTypes and the rational bounds both say UPPER *)
+Theorem C07_types_match_with_small_infty :
+  forall rnd, valid_run rnd init hist_gap = true /\ mode (run rnd init hist_gap) = Auto /\
+              TypesOK (run rnd init hist_gap) /\ rty (run rnd init hist_gap) = [TUpper].
+Proof. exact gap_types_ok. Qed.
+Print Assumptions C07_types_match_with_small_infty.
+
+(* AUTO, add a row, ONLYREAL, MANUAL, addRowRational(1 <= 2 x0 <= 1): the row is FIXED in _rowTypes *)
+Theorem C07_types_match_after_onlyreal_to_manual :
+  forall rnd, valid_run rnd init hist_stale = true /\ mode (run rnd init hist_stale) = Manual /\
+              TypesOK (run rnd init hist_stale) /\ rty (run rnd init hist_stale) = [TFixed].
+Proof. exact stale_types_ok. Qed.
+Print Assumptions C07_types_match_after_onlyreal_to_manual.
+
+Theorem C07_types_recomputed_on_onlyreal_to_manual :
+  forall rnd s, mode s = OnlyReal -> TypesOK (step rnd s (SetMode Manual)).
+Proof. exact onlyreal_to_manual_types. Qed.
+Print Assumptions C07_types_recomputed_on_onlyreal_to_manual.
+
 (* ---------------------------------------------------------------------------------------------------------
    refuted for every oracle: calls that are valid and still break the statement of the property *)
-(* setRealParam(INFTY,1e20); changeRangeReal(0,-1e30,1): _rowTypes says BOXED, the rational bounds say UPPER *)
-Theorem C07_types_match_with_small_infty_refuted :
-  forall rnd, exists h, valid_run rnd init h = true /\ mode (run rnd init h) = Auto /\ ~ TypesOK (run rnd init h).
-Proof. exact (fun rnd => ex_intro _ hist_gap (gap_refutes rnd)). Qed.
-Print Assumptions C07_types_match_with_small_infty_refuted.
-
-(* AUTO, add a row, ONLYREAL, MANUAL, addRowRational: the type arrays of the freed rational LP are still there *)
-Theorem C07_types_match_after_onlyreal_to_manual_refuted :
-  forall rnd, exists h, valid_run rnd init h = true /\ mode (run rnd init h) = Manual /\ ~ TypesOK (run rnd init h).
-Proof. exact (fun rnd => ex_intro _ hist_stale (stale_refutes rnd)). Qed.
-Print Assumptions C07_types_match_after_onlyreal_to_manual_refuted.
-
 (* MANUAL, addColReal, AUTO: setIntParam(SYNCMODE, AUTO) does not synchronise when it comes from MANUAL *)
 Theorem C07_in_sync_on_entering_auto_from_manual_refuted :
   forall rnd, exists h, valid_run rnd init h = true /\ mode (run rnd init h) = Auto /\ ~ InSync (run rnd init h).
@@ -142,20 +158,24 @@ Theorem C07_rational_holds_entered_real_element_refuted :
 Proof. exact elem_eps_real_refutes. Qed.
 Print Assumptions C07_rational_holds_entered_real_element_refuted.
 
-(* for the default INFTY the classifier of the real interface is the classifier of the rational bounds *)
-Theorem C07_real_classifier_agrees_for_default_infty : forall ro, rgap_ok (d2q dinf) ro.
-Proof. exact rgap_ok_default. Qed.
-Print Assumptions C07_real_classifier_agrees_for_default_infty.
+(* changeElementRational(0,0,const mpq_t pointer to 1e-330) (formerly deleted from the rational LP because the zero test
+   was made on mpq_get_d): the rational LP holds the number *)
+Theorem C07_rational_holds_entered_gmp_element :
+  forall rnd, valid_run rnd init hist_elem_gmp_tiny = true /\
+    exists q, ql (run rnd init hist_elem_gmp_tiny) = Some q /\ nth 0 (nth 0 (mat q) []) qzero = Qmake 1 (10 ^ 330).
+Proof. exact elem_gmp_tiny_kept. Qed.
+Print Assumptions C07_rational_holds_entered_gmp_element.
 
-(* ... so with INFTY = 1e100 every call of the real interface is benign *)
-Theorem C07_real_interface_benign_for_default_infty : forall rnd s ro, pinf s = dinf -> benign rnd s (OR ro).
-Proof. exact benign_real_default. Qed.
-Print Assumptions C07_real_interface_benign_for_default_infty.
+(* every call of the real interface is benign *)
+Theorem C07_real_interface_always_benign : forall rnd s ro, benign rnd s (OR ro).
+Proof. exact benign_real. Qed.
+Print Assumptions C07_real_interface_always_benign.
 
 (* ---------------------------------------------------------------------------------------------------------
  refuted for the conversions as the linked libraries perform them (rnd_impl: nearest-even for the conversion
  operator, truncation for mpq_get_d; compared with the libraries on every run of the check) *)
-(* changeElementRational(0,0,const mpq_t pointer to 1e-20): stays in the rational LP, deleted from the real LP *)
+(* changeElementRational(0,0,const mpq_t pointer to 1e-20): stays in the rational LP (as entered), deleted from the real LP
+   by the epsilon rule of SPxLPBase<double>::changeElement *)
 Theorem C07_auto_gmp_element_in_sync_refuted :
 exists h, valid_run rnd_impl init h = true /\ mode (run rnd_impl init h) = Auto /\ ~ InSync (run rnd_impl init h).
 Proof. exact (ex_intro _ hist_elem_gmp elem_gmp_refutes). Qed.
@@ -182,6 +202,9 @@ Print Assumptions C07_oracle_assumption_satisfiable.
 
 (* ---------------------------------------------------------------------------------------------------------
    Examples: the hypotheses are satisfiable by non-trivial states and histories, and what the theorems say there. *)
+Example ex_init_types : TypesInv init.
+Proof. exact TypesInv_init. Qed.
+
 Example ex_init_sense : SenseOK init.
 Proof. exact SenseOK_init. Qed.
 
@@ -206,7 +229,7 @@ Definition ex_ops : list op :=
     OQ (QLhs 0 (1 # 10)%Q);
     OR (RRange 1 (dneg dinf) (dI 7));
     OQ (QElem true 0 1 (1 # 3)%Q);
-    OQ (QAddRows false [((0%Q, 1%Q), [(1, (1 # 7)%Q)])]);
+    OQ (QAddRow false (0%Q, 1%Q, [(1, (1 # 7)%Q)]));
     SetSense false;
     OQ (QObj 0 (1 # 7)%Q);
     OR (RRemRow 0);
